@@ -281,7 +281,7 @@ def proximal_arg_scaling(prox_factory, scaling):
             raise ValueError("Complex scaling not supported.")
         else:
             scaling = float(scaling.real)
-    else:
+    elif not isinstance(scaling, LinearSpaceElement):
         scaling = np.asarray(scaling)
 
     def arg_scaling_prox_factory(sigma):
